@@ -18,17 +18,24 @@ class Profile:
 
 BASIC = Profile(new=10, edit_refresh=10, push=10, pop=10, goto=6, float=6, sink=6, delete=4, hide=3, unhide=3,
                 rename=3, commit=3, uncommit=2, clean=2, undo=5, redo=3, reset=2, inspect=2, repair=1,
-                gcommit=1, greset=1, gamend=1, spill=1, logclear=0.3, invalid=4, edit_msg=3, rebase=1.5, hidden_ops=2, squash=2.5)
+                gcommit=1, greset=1, gamend=1, spill=1, logclear=0.3, invalid=4, edit_msg=3, rebase=1.5, hidden_ops=2, squash=2.5, pick=2.5, reset_deleted=1, uncommit_auto=1, uncommit_collide=0.7, gconfig=0.5)
 REORDER = Profile(new=6, edit_refresh=8, push=14, pop=12, goto=8, float=10, sink=10, delete=5, hide=4, unhide=4,
-                  commit=4, rename=1, undo=2, invalid=2, upstream=3, edit_msg=3, rebase=2, hidden_ops=3, conflict_reorder=3, sink_mixed=4, squash=4)
+                  commit=4, rename=1, undo=2, invalid=2, upstream=3, edit_msg=3, rebase=2, hidden_ops=3, conflict_reorder=3, sink_mixed=4, squash=4, pick=2)
 UNDO = Profile(new=6, edit_refresh=6, push=8, pop=8, float=3, sink=3, delete=3, hide=2, unhide=2, rename=2,
-               undo=14, redo=10, reset=6, gcommit=1.5, commit=1, invalid=1, extmods=2, edit_msg=3, rebase=1, redo_chain=3, extmods_fail=2)
+               undo=14, redo=10, reset=6, gcommit=1.5, commit=1, invalid=1, extmods=2, edit_msg=3, rebase=1, redo_chain=3, extmods_fail=2, pick=2, reset_deleted=3)
 REPAIR = Profile(new=8, edit_refresh=8, push=5, pop=6, delete=2, hide=2, repair=10, gcommit=8, gamend=4, greset=9,
                  gmerge=1, undo=1, commit=1, uncommit=1, inspect=1, twin_commits=3, repair_from_empty=3, extmods_fail=4, reset=2)
 COMMIT = Profile(new=10, edit_refresh=8, push=6, pop=6, commit=12, uncommit=10, float=3, sink=3, undo=3, redo=2,
-                 gcommit=3, delete=2, hide=2, goto=2, repair=1, invalid=1, edit_msg=2, rebase=3, squash=2)
+                 gcommit=3, delete=2, hide=2, goto=2, repair=1, invalid=1, edit_msg=2, rebase=3, squash=2, pick=3, uncommit_auto=4, uncommit_collide=2.5)
 DIRTY = Profile(new=8, edit_refresh=6, dirty_edit=14, push=10, pop=10, goto=6, float=5, sink=5, delete=4, hide=2,
                 unhide=1, commit=2, undo=4, redo=2, reset=1, rename=1, clean=1, repair=1, edit_msg=1, rebase=2)
+# trial profile for model growth (not used by a registered check until the model has landed)
+NEXT = Profile(new=10, edit_refresh=8, push=6, pop=6, commit=8, uncommit=4, uncommit_auto=8, uncommit_collide=4,
+               hide=3, unhide=2, delete=2, undo=3, redo=2, pick=3, gcommit=3, float=2, sink=2, reset_deleted=2)
+# conflicts with stgit.push.allow-conflicts switched off and on
+NOCONF = Profile(new=6, edit_refresh=8, push=10, pop=12, goto=6, float=10, sink=10, delete=5, commit=5, undo=3,
+                 edit_msg=3, rebase=3, squash=4, pick=4, reset=2, reset_deleted=2, conflict_reorder=6, sink_mixed=3,
+                 gconfig=3, clean=1, hide=2, unhide=1)
 BIG = Profile(new=30, edit_refresh=6, push=6, pop=10, hide=8, unhide=3, delete=2, float=3, sink=3, undo=3, redo=1,
               rename=2, big_clear=2)
 
@@ -39,6 +46,7 @@ class Chooser:
         self.p = profile
         self.meta = 0
         self.pending = []
+        self.seen = []            # every patch name ever seen, in order of first appearance
         self.single_cells_only = single_cells_only
 
     def next_meta(self):
@@ -108,8 +116,17 @@ class Chooser:
                 return {"c": "reset", "flags": ["hard"]}
             if k < 0.62:
                 return {"c": "undo", "flags": []}
-        if self.pending:
-            return self.pending.pop(0)
+        for nme in view["A"] + view["U"] + view["H"]:
+            if nme not in self.seen:
+                self.seen.append(nme)
+        while self.pending:
+            item = self.pending.pop(0)
+            if callable(item):            # a step that depends on the state reached so far
+                item = item(view)
+                if item is None:
+                    self.pending = []
+                    break
+            return item
         A, U, H = view["A"], view["U"], view["H"]
         if not view["unmerged"] and view["wt"] != view["branch_tree"] and view["branch_tree"] is not None \
                 and "dirty_edit" not in self.p.w:
@@ -127,6 +144,8 @@ class Chooser:
             "commit": bool(A), "clean": bool(A or U), "spill": bool(A), "undo": view["log_len"] > 1,
             "redo": view["log_len"] > 1, "reset": view["log_len"] > 1, "edit_refresh": bool(A),
             "repair": view["initialized"], "logclear": view["initialized"],
+            "uncommit": view.get("below_base", 1) > 0, "uncommit_auto": view.get("below_base", 1) > 0,
+            "uncommit_collide": bool(A),
         }
         npatches = len(A) + len(U) + len(H)
         kinds = [(k, (w if feasible.get(k, True) else w * 0.04)) for k, w in self.p.w.items()]
@@ -317,8 +336,43 @@ class Chooser:
             if rng.random() < 0.2:
                 c["flags"].append("hard")
             if rng.random() < 0.3:
-                c["ranges"] = self.pick_some(A + U + H + NAMES[:3], 2)
+                gone = [x for x in self.seen if x not in A + U + H]
+                c["ranges"] = self.pick_some(A + U + H + gone[-4:] + NAMES[:3], 2)
             return c
+        if kind == "reset_deleted":
+            # a patch is hidden (or not), deleted, and then brought back alone by a partial reset to
+            # the entry in which it still existed
+            pool = A + U
+            if not pool:
+                return {"c": "new", "name": self.fresh_name(view), "meta": self.next_meta()}
+            pn = rng.choice(pool)
+            seq = []
+            if rng.random() < 0.7:
+                seq.append({"c": "hide", "ranges": [pn]})
+            seq.append({"c": "delete", "ranges": [pn], "flags": []})
+            if rng.random() < 0.4:
+                seq.append({"c": "new", "name": self.fresh_name(view), "meta": self.next_meta()})
+            # refs/stacks/<b>~k: ~0 is the full entry, ~1 its simplified twin, ~2 the entry before, ...
+            back = len(seq) - (1 if seq[0]["c"] == "hide" else 0) + 1
+            seq.append({"c": "reset", "entry": back, "flags": [], "ranges": [pn]})
+            seq.append({"c": "inspect", "argv": ["series", "-a"]})
+            self.pending = seq[1:]
+            return seq[0]
+        if kind == "uncommit_auto":
+            if rng.random() < 0.5:
+                return {"c": "uncommit", "n": rng.choice([1, 1, 2, max(1, view.get("below_base", 1)), 3]), "names": []}
+            return {"c": "uncommit", "names": []}
+        if kind == "uncommit_collide":
+            # the name generated from a commit's message meets a HIDDEN patch of that name
+            if not A:
+                return {"c": "new", "name": self.fresh_name(view), "meta": self.next_meta()}
+            top_hidden = lambda v: ({"c": "hide", "ranges": [v["A"][-1]]} if v["A"] else None)
+            pick_hidden = lambda v: ({"c": "pick", "kind": "patch", "arg": v["H"][-1], "name": None, "flags": []}
+                                     if v["H"] else None)
+            self.pending = [{"c": "uncommit", "n": 1, "names": []}, top_hidden, pick_hidden,
+                            {"c": "commit", "flags": ["all"]}, {"c": "uncommit", "names": []},
+                            {"c": "inspect", "argv": ["series", "-a"]}]
+            return {"c": "commit", "flags": ["all"]}
         if kind == "inspect":
             return {"c": "inspect", "argv": rng.choice([["series"], ["series", "-a"], ["top"], ["id"], ["log"]])}
         if kind == "repair":
@@ -489,6 +543,10 @@ class Chooser:
             return {"c": "gamend", "meta": m, "subj": "x%d amended" % m}
         if kind == "gmerge":
             return {"c": "gmerge", "meta": self.next_meta()}
+        if kind == "gconfig":
+            # stgit.push.allow-conflicts: mostly switched off (the default is on)
+            self.apc = not getattr(self, "apc", True) if rng.random() < 0.8 else rng.random() < 0.5
+            return {"c": "gconfig", "apc": self.apc}
         if kind == "greset":
             k = rng.random()
             allp = A + U + H
@@ -524,6 +582,17 @@ class Chooser:
             x = rng.random()
             name = rng.choice(picks) if x < 0.3 else (rng.choice(A + U + H) if x < 0.4 else self.fresh_name(view))
             return {"c": "squash", "ranges": picks, "name": name, "meta": self.next_meta()}
+        if kind == "pick":
+            k = rng.random()
+            allp = A + U + H
+            fl = ["noapply"] if rng.random() < 0.3 else []
+            x = rng.random()
+            name = None if x < 0.4 else (rng.choice(allp) if (allp and x < 0.6) else self.fresh_name(view))
+            if allp and k < 0.6:
+                return {"c": "pick", "kind": "patch", "arg": rng.choice(allp), "name": name, "flags": fl}
+            if k < 0.85:
+                return {"c": "pick", "kind": "base", "arg": rng.choice([0, 0, 1, 2]), "name": name, "flags": fl}
+            return {"c": "pick", "kind": "head", "arg": rng.choice([0, 1, 2]), "name": name, "flags": fl}
         if kind == "rebase":
             k = rng.random()
             allp = A + U
